@@ -19,9 +19,11 @@ add(Contract("markdown_it.token.Token.attrSet", params={"self": "obj:Token", "na
 PI = "markdown_it.parser_inline.ParserInline."
 add(Contract(PI + "parse", params={"self": "obj:ParserInline", "src": "str", "md": "obj:MarkdownIt", "env": "opaque", "tokens": "reclist:TokenA"}, assume_only=True, modifies=["tokens"],
              notes="the nested inline parse of an image description: a fresh StateInline over `content`; appends to the given list only (C12 FRAME: writes nothing else)"))
+add(Contract(M + "normalizeLinkText", params={"self": "obj:MarkdownIt", "link": "str"}, result="str", assume_only=True, modifies=[], notes="pure"))
 Q = RI + "link.link"
 QI = RI + "image.image"
-FUNCS = [Q, QI]
+QA = RI + "autolink.autolink"
+FUNCS = [Q, QI, QA]
 POSR = IL.POSR
 add(Contract(
     Q, params={"state": "obj:StateInline", "silent": "bool"}, result="bool", props=["C01", "C02", "C20"],
@@ -63,4 +65,26 @@ add(Contract(
                                                ("label", "P0 + 1 < labelEnd and state.src[labelEnd] == ']' and state.src[P0] == '!' and state.src[P0 + 1] == '[' and oldPos == P0 and labelStart == P0 + 2"),
                                                ("cache-inv", "forall(p, 0, len(state.src) + 1, implies(p in state.cache, state.cache[p] > p))")],
                "dec": "max - pos"} for k in (0, 1, 2)},
+))
+
+# autolink: the two regular expressions are used as yes/no tests only (assumed pure); everything else - the scan to the
+# closing '>', what is consumed, the three tokens and their levels - is decided here
+add(Contract(
+    QA, params={"state": "obj:StateInline", "silent": "bool"}, result="bool", props=["C01", "C02", "C20", "C19"],
+    ghost={"defs": {"P0": "old(state.pos)", "T": "new_tokens(state)"}},
+    requires=POSR,
+    ensures=[
+        ("trigger", "implies(result, state.src[P0] == '<')", ["C01"]),
+        ("advance", "implies(result, P0 + 1 < state.pos and state.pos <= state.posMax)", ["C01", "C20"]),
+        ("consumes-one-bracketed-span", "implies(result, state.src[state.pos - 1] == '>' and forall(k, P0 + 1, state.pos - 1, state.src[k] != '<' and state.src[k] != '>'))", ["C02", "C05"]),
+        ("fail-pure", "implies(not result, state.pos == P0 and ntokens(state) == old(ntokens(state)) and state.pending == old(state.pending))", ["C01"]),
+        ("silent-pure", "implies(silent, ntokens(state) == old(ntokens(state)) and state.pending == old(state.pending))", ["C01"]),
+        ("level", "state.level == old(state.level) and state.posMax == old(state.posMax)", ["C01", "C02"]),
+        ("auto-link-tokens", "implies(result and not silent, T[-1].type == 'link_close' and T[-1].nesting == -1 and T[-1].info == 'auto' and T[-1].level == old(state.level) "
+                             "and T[-2].type == 'text' and T[-2].level == old(state.level) + 1 and T[-3].type == 'link_open' and T[-3].nesting == 1 and T[-3].info == 'auto' and T[-3].level == old(state.level))", ["C02", "C19"]),
+    ],
+    loops={0: {"types": {"ch": "char"}, "inv": [("pos", "P0 <= pos and pos < maximum and maximum == state.posMax and maximum <= len(state.src) and start == P0 and state.src[P0] == '<'"),
+                                               ("clean", "forall(k, P0 + 1, pos + 1, state.src[k] != '<' and state.src[k] != '>')"),
+                                               ("quiet", "state.pos == P0 and ntokens(state) == old(ntokens(state)) and state.pending == old(state.pending) and state.level == old(state.level) and state.posMax == old(state.posMax)")],
+               "dec": "maximum - pos"}},
 ))
